@@ -74,8 +74,15 @@ def run_text(text):
         return 'extract-error', e
 
 
-def expect(ctx, family, macro, text, want, case_extra=None):
+_FIRST = []
+
+
+def expect(ctx, family, macro, text, want, case_extra=None, again=False):
     """want: ('ok', stack) | ('fail',)"""
+    if not again and len(_FIRST) < 400:
+        _FIRST.append((family, macro, text, want))
+    if again:
+        family = family + '|again-after-other-expansions'
     st, got = run_text(text)
     ctx.count('macro_runs')
     ctx.count('family_' + family)
@@ -254,6 +261,16 @@ def run(ctx):
         expect(ctx, 'cmp', 'CMPEQ @v', pushes([(T.INT, 1), (T.INT, 1)] + rest) + ' ; CMPEQ @v', ('ok', [(T.BOOL, True)] + rest))
         t, v = path_tree('AD')
         expect(ctx, 'cxr', 'CADR @v', pushes([(t, v)] + rest) + ' ; CADR @v', ('ok', [get_path(t, v, 'AD')] + rest))
+    # two different D(UU+)P in one program, and the earliest cases of this run once more at the end: an expansion must not depend
+    # on which macros were expanded before it in the same process
+    if ctx.mine(0):
+        for a, b in ((2, 3), (3, 2), (2, 4), (5, 2)):
+            expect(ctx, 'duup', 'D%sP;D%sP' % ('U' * a, 'U' * b), pushes(items) + ' ; D%sP ; D%sP' % ('U' * a, 'U' * b),
+                   ('ok', [([items[a - 1]] + items)[b - 1], items[a - 1]] + items))
+    for fam, macro, text, want in list(_FIRST):
+        expect(ctx, fam, macro, text, want, again=True)
+        ctx.count('cases_run_again_at_the_end')
+    ctx.require('cases_run_again_at_the_end', 50)
     ctx.require('macro_runs', 100)
     for fam in ('pair-tree', 'unpair-tree', 'pair-unpair-identity', 'cxr', 'set-cxr', 'map-cxr', 'diip', 'duup', 'cmp', 'ifcmp', 'assert-cmp', 'ifx',
                 'assert-x', 'assert-opt', 'assert-or', 'if-some', 'if-right'):
